@@ -1256,4 +1256,5 @@ package larking
 //@ func (*ruleSelector).getRules serves C19 partial ghost
 //@   requires r != nil
 //@   assert atcall `append(rules, r.rules...)` [exact-selectors-apply-only-to-their-own-name C19] len(name) == 0
+//@   assert atcall `append(rules, r.wild...)` [wildcards-cover-only-deeper-names C19] len(name) > 0
 //@   witness verifWitnessSelectorLeak
